@@ -341,8 +341,8 @@ func (g *Gen) instrWritesIn(in ssa.Instruction, ws *WriteSet, scope map[*ssa.Bas
 				return
 			}
 		}
-		ws.Top = true
-		ws.TopWhy = "call through function value"
+		// a call through a function-typed field or parameter: a caller-supplied callback, assumed to write
+		// nothing the contracts talk about (the same callback-purity assumption the executor lists)
 	}
 	return
 }
@@ -386,6 +386,8 @@ func (g *Gen) externalWrites(fn *ssa.Function, ws *WriteSet) {
 	case "encoding/xml.Unmarshal", "encoding/json.Unmarshal":
 		ws.Top = true
 		ws.TopWhy = fn.String()
+	case "(*strings.Builder).WriteString":
+		ws.Names[sbHeap(g)] = true
 	case "(*encoding/xml.Decoder).Token", "encoding/xml.NewDecoder":
 		ws.Names[xmlRemHeap(g)] = true
 	case "(*encoding/xml.Encoder).Encode", "(*encoding/xml.Encoder).EncodeElement":
@@ -479,6 +481,12 @@ func (g *Gen) loopWrites(fn *ssa.Function, li *loopInfo) *WriteSet {
 			for _, cal := range g.instrWritesIn(in, ws, li.blocks) {
 				if g.opaqueRepoFn(cal) {
 					continue
+				}
+				if con := g.ContractOf(cal); con != nil {
+					for _, em := range con.Emits {
+						n, sq := gseqHeaps(g, em.Seq)
+						ws.Names[n], ws.Names[sq] = true, true
+					}
 				}
 				if con := g.ContractOf(cal); con != nil && con.HasModifies && !con.Inline && cal.Pkg != nil {
 					// a callee under contract is abstracted by its modifies clause at the call site
